@@ -72,7 +72,63 @@ func classification(w *World, fn *ssa.Function, slots map[*types.Var]string) ([]
 			}
 		}
 	}
-	sort.SliceStable(tests, func(i, j int) bool { return dist[tests[i].Block()] < dist[tests[j].Block()] })
+	// the value the decision branches on: the test itself, or the boolean Phi a materialised
+	// || / && (possibly kept in a local) combines it into
+	tvOf := func(t *ssa.Call) ssa.Value {
+		var tv ssa.Value = t
+		if refs := t.Referrers(); refs != nil {
+			for _, rf := range *refs {
+				if ph, isPhi := rf.(*ssa.Phi); isPhi && isBool(ph.Type()) {
+					tv = ph
+				}
+			}
+		}
+		if tv == ssa.Value(t) {
+			tb := t.Block()
+			if len(tb.Instrs) > 0 {
+				if iff, ok := tb.Instrs[len(tb.Instrs)-1].(*ssa.If); ok && iff.Cond == ssa.Value(t) && len(tb.Succs) == 2 {
+					succ := tb.Succs[0]
+					for _, in := range succ.Instrs {
+						ph, isPhi := in.(*ssa.Phi)
+						if !isPhi {
+							break
+						}
+						if !isBool(ph.Type()) {
+							continue
+						}
+						for k, pred := range succ.Preds {
+							if pred == tb {
+								if c, isC := ph.Edges[k].(*ssa.Const); isC && c.Value != nil {
+									tv = ph
+								}
+							}
+						}
+					}
+				}
+			}
+		}
+		return tv
+	}
+	// the block in which the decision on that value is taken
+	decisionBlock := func(t *ssa.Call) *ssa.BasicBlock {
+		tv := tvOf(t)
+		for _, b := range fn.Blocks {
+			if len(b.Instrs) == 0 {
+				continue
+			}
+			if iff, ok := b.Instrs[len(b.Instrs)-1].(*ssa.If); ok {
+				c := iff.Cond
+				if u, isNot := c.(*ssa.UnOp); isNot && u.Op == token.NOT {
+					c = u.X
+				}
+				if c == tv {
+					return b
+				}
+			}
+		}
+		return t.Block()
+	}
+	sort.SliceStable(tests, func(i, j int) bool { return dist[decisionBlock(tests[i])] < dist[decisionBlock(tests[j])] })
 	sentinelOf := func(c *ssa.Call) string {
 		for _, o := range w.Origins(c.Common().Args[1], nil) {
 			if u, ok := o.(*ssa.UnOp); ok {
@@ -115,19 +171,12 @@ func classification(w *World, fn *ssa.Function, slots map[*types.Var]string) ([]
 	var out []classEntry
 	testBlocks := map[*ssa.BasicBlock]bool{}
 	for _, t := range tests {
-		testBlocks[t.Block()] = true
+		testBlocks[decisionBlock(t)] = true
 	}
 	for _, t := range tests {
 		// true edge of this test
 		slot := ""
-		var tv ssa.Value = t
-		if refs := t.Referrers(); refs != nil {
-			for _, rf := range *refs {
-				if ph, isPhi := rf.(*ssa.Phi); isPhi && isBool(ph.Type()) {
-					tv = ph // materialised || / &&
-				}
-			}
-		}
+		tv := tvOf(t)
 		for _, b := range fn.Blocks {
 			for i := range b.Succs {
 				for _, f := range rawEdgeFacts(b, i) {
